@@ -50,7 +50,32 @@ void meta_cases(const std::string& name, const MT& A, const Dense<DT>& D)
     H<DT>::fact("completes", rc == 0, rc == 2 ? "memory fault" : "abort"); H<DT>::end(); } }
 }
 
-template<typename DT> void run_all() { run_meta<DT>(); }
+// square meta matrices: extract_diag == dense diagonal
+template<typename DT>
+void diag_cases()
+{
+  typedef LAFEM::SparseMatrixCSR<DT, Index> CSR;
+  for(int v = 0; v < 3; ++v)
+  {
+    std::string vs = " v" + str(Index(v));
+    auto check = [&](const std::string& nm, auto& M, const Dense<DT>& G) {
+      std::string cn = "meta extract_diag " + nm + vs; if(!H<DT>::want(cn)) return;
+      H<DT>::begin(cn, "{\"part\":\"meta algebra\"}");
+      int rc = guarded([&] { auto d = M.create_vector_l(); M.extract_diag(d); auto f = flat_of<DT>(d); for(Index i = 0; i < Index(G.size()); ++i) H<DT>::eq("extract_diag [" + str(i) + "]", f[i], G[i][i]); });
+      H<DT>::fact("completes", rc == 0, rc == 2 ? "memory fault" : "abort"); H<DT>::end(); };
+    // blocks with stored diagonal: variant 0 (full) and 2 (diagonal-ish) have all diagonal entries; variant 1 (first row empty) lacks (0,0)
+    if(v == 1) continue;
+    { LAFEM::PowerDiagMatrix<CSR, 2> M; Dense<DT> D1, D2; M.template at<0, 0>() = blk<DT>("a", 2, 2, v, D1); M.template at<1, 1>() = blk<DT>("b", 1, 1, 0, D2);
+      Dense<DT> G = dense_zero<DT>(3, 3); put(G, 0, 0, D1); put(G, 2, 2, D2); check("power-diag<csr,2> 2x2,1x1", M, G); }
+    { LAFEM::PowerFullMatrix<CSR, 2, 2> M; Dense<DT> D[4]; Index rs[2] = {2, 1};
+      M.template at<0, 0>() = blk<DT>("a", rs[0], rs[0], v, D[0]); M.template at<0, 1>() = blk<DT>("b", rs[0], rs[1], 0, D[1]); M.template at<1, 0>() = blk<DT>("c", rs[1], rs[0], 0, D[2]); M.template at<1, 1>() = blk<DT>("d", rs[1], rs[1], 0, D[3]);
+      Dense<DT> G = dense_zero<DT>(3, 3); put(G, 0, 0, D[0]); put(G, 0, 2, D[1]); put(G, 2, 0, D[2]); put(G, 2, 2, D[3]); check("power-full<csr,2,2>", M, G); }
+    { LAFEM::TupleDiagMatrix<CSR, CSR> M; Dense<DT> D1, D2; M.template at<0, 0>() = blk<DT>("a", 2, 2, v, D1); M.template at<1, 1>() = blk<DT>("b", 1, 1, 0, D2);
+      Dense<DT> G = dense_zero<DT>(3, 3); put(G, 0, 0, D1); put(G, 2, 2, D2); check("tuple-diag<csr,csr>", M, G); }
+  }
+}
+
+template<typename DT> void run_all() { run_meta<DT>(); diag_cases<DT>(); }
 
 int main(int argc, char** argv)
 {
